@@ -87,6 +87,8 @@ func runC04(p *core.Prog, r *core.Report) {
 	c04R6(p, r, fn, "C04.R6")
 	// the same order inside the layout scheme: content file before the index entry (shared with C07.R3)
 	c07R3(p, r, "C04.R7")
+	// a layout target: the collector cannot run under the copy and delete children already written (shared with C08.R2)
+	c08R2(p, r, "C04.R8")
 }
 
 // resolveLit returns the function literal a go statement runs: a literal, or a local variable
